@@ -97,6 +97,8 @@ structure Cfg where
   readSize     : Bool     -- readFrom: size check before make
   mdNil        : Bool     -- messageDispatch: nil message skipped
   dispReplyNil : Bool     -- client.dispatch: a reply whose nonce has no pending request is ignored
+  callRemoveNil : Bool    -- callHandler: removal of an id that has no entry is skipped (`if c != nil`)
+  callIdMatch  : Bool     -- callHandler (f4bcda2): a peer announcing another id than the dialled one is refused
   listenName   : Bool     -- serfNet.Listen: name length check
   listenCast   : Bool     -- serfNet.Listen: `event.(serf.MemberEvent)` comma-ok
   lookupName   : Bool     -- serfNet.Lookup / MembersID: name length checks
@@ -108,7 +110,7 @@ def Cfg.all : Cfg :=
     encNil := true, nonceLen := true, secShareNil := true, shareVNil := true, findPubVss := true, aggNil := true,
     toBigLen := true, qloopOk := true, qloopCast := true, rsNil := true, rsMake := true, groupInfoIds := true,
     byte32Len := true, crRand := true, sigIdxLen := true, recoverDedup := true, anyNil := true, ridCast := true,
-    ridLen := true, readSize := true, mdNil := true, dispReplyNil := true, listenName := true, listenCast := true, lookupName := true }
+    ridLen := true, readSize := true, mdNil := true, dispReplyNil := true, callRemoveNil := true, callIdMatch := true, listenName := true, listenCast := true, lookupName := true }
 
 /-! ### association lists (Go maps) -/
 
